@@ -20,6 +20,8 @@ CONSTANTS
   NoisyObjective = FALSE
   WithHuge = FALSE
   NewDirs = 0
+  GrowGeom = FALSE
+  RegInc = 0
   DefSoftSwap = FALSE
   DefTrialLost = FALSE
   DefX0EvalNum = FALSE
